@@ -20,6 +20,7 @@ INT_TYPES = {'u8', 'u16', 'u32', 'u64', 'u128', 'usize', 'i8', 'i16', 'i32', 'i6
 LEN_METHODS = {'len', 'is_empty', 'capacity', 'count'}
 GROW_METHODS = {'push', 'push_back', 'push_front', 'insert', 'extend', 'extend_from_slice', 'append', 'resize', 'fill'}
 COUNT_ONLY_CALLS = {'alloc::vec::from_elem': 1, 'alloc::vec::Vec::with_capacity': 0, 'core::iter::repeat_n': 1, 'core::iter::sources::repeat_n::repeat_n': 1}
+STORE_METHODS = {'or_insert', 'or_insert_with', 'insert', 'push', 'extend', 'extend_from_slice', 'replace'}
 COUNT_ONLY_METHODS = {'take': 1, 'skip': 1, 'step_by': 1, 'resize': 1, 'chunks': 1, 'chunks_exact': 1, 'windows': 1, 'truncate': 1, 'reserve': 1}
 
 
@@ -56,6 +57,7 @@ class ValFlow:
         for n, i, t in src:
             self.env[i] = frozenset([n])
         self.sites = {}           # id(node) -> (node, deps-by-arg list)
+        self.stores = {}          # id(node) -> (node, kind, value node, deps)
         self.changed = True
         it = 0
         while self.changed and it < 6:
@@ -134,6 +136,7 @@ class ValFlow:
         if k in ('assign', 'assignop'):
             d = self.ev(n['rhs'])
             self.ev(n['lhs'])
+            self.stores[id(n)] = (n, k + (n.get('op') or ''), n['rhs'], d)
             r = self.root_local(n['lhs'])
             if r is not None:
                 self.add(r, d)
@@ -208,6 +211,8 @@ class ValFlow:
                 per_arg[j] = res
         if 'recv' in n and m in LEN_METHODS:
             res = E
+        if 'recv' in n and (m in GROW_METHODS or m in STORE_METHODS) and len(args) >= 2:
+            self.stores[id(n)] = (n, m, args[-1], per_arg[-1] or E)
         if 'recv' in n and m in GROW_METHODS:
             r = self.root_local(n['recv'])
             if r is not None:
@@ -231,14 +236,20 @@ class ValFlow:
         return res
 
     # ---------------------------------------------------------------- results
-    def call_sites(self):
-        """[(node, callee, set of parameter names reaching a bound-typed argument (integer / big integer / collections of them) by value)]"""
+    def store_sites(self):
+        """[(node, kind, value node, deps)] assignments and collection insertions"""
+        return list(self.stores.values())
+
+    def call_sites(self, typed=None):
+        """[(node, callee, set of source names reaching, by value, an argument whose type satisfies `typed`)]
+        default `typed`: bound-typed (integer / big integer / collections of them)"""
+        typed = typed or bound_typed
         out = []
         for n, per_arg in self.sites.values():
             args = ([n['recv']] if 'recv' in n else []) + list(n.get('args', []))
             deps = frozenset()
             for a, d in zip(args, per_arg):
-                if bound_typed(peel(a).get('t') or a.get('t')):
+                if typed(peel(a).get('t') or a.get('t')):
                     deps |= d or frozenset()
             out.append((n, callee(n) or '', deps))
         return out
